@@ -78,7 +78,7 @@ def check_cfg(ctx, fx, cfg):
     from props.c01 import check_single_queue
     check_single_queue(ctx, fx, cfg, "R07.5", "R07.5")
     # R07.2
-    res = run_loops(ctx, fx, "R07.2", {"L10", "L7", "L13"})
+    res = run_loops(ctx, fx, "R07.2", {"L10", "L14"}, kinds=("plain",))
     for f, kind, b, n in res:
         if kind != "plain":
             continue
